@@ -7,7 +7,7 @@ from ..report import Ob
 from ..cfg import calls_at, call_attr, is_self_attr, own_exprs, walk_now
 from ..state import Analysis, State, TOP
 from ..effects import Effects, must_defs, reaching_writes
-from ..norm import FrameEnv, ctext
+from ..norm import FrameEnv, ctext, subst
 from .. import inventory as inv
 
 EXPLANATION = '''
@@ -246,6 +246,12 @@ def _none_cmp(test, is_subject):
     return None
 
 
+def ct(e, frame):
+    """canonical spelling of an expression: single-definition locals (`env = self._env`, `active = System._instance`) and the parameters
+    of inlined helpers are substituted"""
+    return ast.unparse(subst(e, FrameEnv(frame)))
+
+
 def add_asset(ctx, o):
     P = ctx.P
     S = P.cls('System')
@@ -255,16 +261,16 @@ def add_asset(ctx, o):
     a = fn.args.args[0].arg
 
     def m_noinst(test, frame):
-        r = _none_cmp(test, lambda e: ast.unparse(e) == 'System._instance')
+        r = _none_cmp(test, lambda e: ct(e, frame) == 'System._instance')
         if r is not None:
             return r
-        if ast.unparse(test) == 'System._instance':
+        if ct(test, frame) == 'System._instance':
             return False
         return None
 
     def m_present(test, frame):
-        if isinstance(test, ast.Compare) and len(test.ops) == 1 and ast.unparse(test.left) == a and \
-                ast.unparse(test.comparators[0]) == 'System._instance._assets':
+        if isinstance(test, ast.Compare) and len(test.ops) == 1 and ct(test.left, frame) == a and \
+                ct(test.comparators[0], frame) == 'System._instance._assets':
             if isinstance(test.ops[0], ast.In):
                 return True
             if isinstance(test.ops[0], ast.NotIn):
@@ -272,10 +278,10 @@ def add_asset(ctx, o):
         return None
 
     def m_started(test, frame):
-        t = ast.unparse(test)
+        t = ct(test, frame)
         if t == 'System._instance._simulation_is_initialized':
             return True
-        if isinstance(test, ast.Compare) and len(test.ops) == 1 and ast.unparse(test.left) == 'System._instance._simulation_is_initialized' and \
+        if isinstance(test, ast.Compare) and len(test.ops) == 1 and ct(test.left, frame) == 'System._instance._simulation_is_initialized' and \
                 isinstance(test.comparators[0], ast.Constant) and isinstance(test.comparators[0].value, bool) and isinstance(test.ops[0], (ast.Eq, ast.Is, ast.NotEq, ast.IsNot)):
             return (test.comparators[0].value is True) == isinstance(test.ops[0], (ast.Eq, ast.Is))
         return None
@@ -284,11 +290,11 @@ def add_asset(ctx, o):
         st = after
         for cl in calls_at(g, n):
             nm = call_attr(cl)
-            if nm in ('append', 'insert', 'extend') and 'System._instance._assets' == ast.unparse(cl.func.value):
-                good = nm == 'append' and len(cl.args) == 1 and ast.unparse(cl.args[0]) == a
+            if nm in ('append', 'insert', 'extend') and 'System._instance._assets' == ct(cl.func.value, n.frame):
+                good = nm == 'append' and len(cl.args) == 1 and ct(cl.args[0], n.frame) == a
                 st = st.with_flag('appended-twice' if 'appended' in st.flags else ('appended' if good else 'appended-wrong'))
             if nm == 'initialize':
-                good = ast.unparse(cl.func.value) == a and len(cl.args) == 1 and not cl.keywords and ast.unparse(cl.args[0]) in ('System._instance._env', 'System._instance.env')
+                good = ct(cl.func.value, n.frame) == a and len(cl.args) == 1 and not cl.keywords and ct(cl.args[0], n.frame) in ('System._instance._env', 'System._instance.env')
                 fl = 'initialized' if good else 'initialized-wrong'
                 if 'initialized' in st.flags:
                     fl = 'initialized-twice'
@@ -327,7 +333,7 @@ def add_asset(ctx, o):
 
 
 def _in_assets_loop(n, recv):
-    return any(isinstance(l, ast.For) and ast.unparse(l.iter) == 'self._assets' and isinstance(l.target, ast.Name) and l.target.id == recv
+    return any(isinstance(l, ast.For) and ct(l.iter, n.frame) == 'self._assets' and isinstance(l.target, ast.Name) and l.target.id == recv
                for l in ast.walk(n.frame.func))
 
 
@@ -339,7 +345,7 @@ def simulate(ctx, o):
 
     def m_other(test, frame):
         if isinstance(test, ast.Compare) and len(test.ops) == 1:
-            sides = {ast.unparse(test.left), ast.unparse(test.comparators[0])}
+            sides = {ct(test.left, frame), ct(test.comparators[0], frame)}
             if sides == {'System._instance', 'self'}:
                 if isinstance(test.ops[0], (ast.NotEq, ast.IsNot)):
                     return True
@@ -351,12 +357,13 @@ def simulate(ctx, o):
         st = after
         for cl in calls_at(g, n):
             nm = call_attr(cl)
-            recv = ast.unparse(cl.func.value) if isinstance(cl.func, ast.Attribute) else ''
+            recv = ct(cl.func.value, n.frame) if isinstance(cl.func, ast.Attribute) else ''
+            recv_raw = ast.unparse(cl.func.value) if isinstance(cl.func, ast.Attribute) else ''
             if nm == 'initialize':
-                arg_ok = len(cl.args) == 1 and ast.unparse(cl.args[0]) in ('self._env', 'self.env')
+                arg_ok = len(cl.args) == 1 and ct(cl.args[0], n.frame) in ('self._env', 'self.env')
                 if recv in ('self.resource_manager', 'self._env.resource_manager', 'self.env.resource_manager', 'self._env._resource_manager'):
                     st = st.with_flag('rm-init' if arg_ok and 'rm-init' not in st.flags else 'rm-init-wrong')
-                elif not _in_assets_loop(n, recv):
+                elif not _in_assets_loop(n, recv_raw):
                     st = st.with_flag('stray-initialize')
                 if 'ran' in st.flags:
                     st = st.with_flag('init-after-run')
@@ -370,11 +377,11 @@ def simulate(ctx, o):
             if nm == '_reset' or nm == 'reset':
                 st = st.with_flag('reset')
         a = n.ast
-        if n.kind == 'for' and ast.unparse(a.iter) == 'self._assets' and isinstance(a.target, ast.Name) and 'assets-init' not in st.flags:
+        if n.kind == 'for' and ct(a.iter, n.frame) == 'self._assets' and isinstance(a.target, ast.Name) and 'assets-init' not in st.flags:
             # the loop initialises every registered asset (assets registered by an initialize() are appended and reached by the same loop)
             body_ok = len(a.body) == 1 and isinstance(a.body[0], ast.Expr) and isinstance(a.body[0].value, ast.Call) and \
                 ast.unparse(a.body[0].value.func) == f'{a.target.id}.initialize' and len(a.body[0].value.args) == 1 and not a.body[0].value.keywords and \
-                ast.unparse(a.body[0].value.args[0]) in ('self._env', 'self.env') and not a.orelse
+                ct(a.body[0].value.args[0], n.frame) in ('self._env', 'self.env') and not a.orelse
             st = st.with_flag('assets-init' if body_ok else 'assets-init-wrong')
             if 'rm-init' not in st.flags:
                 st = st.with_flag('assets-before-rm')
